@@ -15,6 +15,7 @@
 import JSV.Proofs.InfTight
 import JSV.Proofs.InfNamed
 import JSV.Proofs.InfEmbTight
+import JSV.Proofs.InfEmbNamed
 import JSV.Props.C04
 import JSV.Props.C16
 namespace JSV.C09
@@ -345,7 +346,8 @@ open EncJsonEmb in
     decoder knows nothing of them).
 
     Partial, what is missing: types outside `InDomainE`: D14 (a JSON name shared by two Go names), D16 (tagged /
-    non-struct / unexported embedded fields), named types in non-embedded positions (as in `infer_tight`). -/
+    non-struct / unexported embedded fields); declared types in non-embedded positions are in
+    `infer_tightE_named_partial`. -/
 theorem infer_tightE_partial (opts : IOpts) (fuel : Nat) (T : GoTypeE) (st : Store) (id : NodeId) (st' : Store)
     (re : String → String → Bool) (hno : EmbNotInTable opts T) (hdom : InDomainE T = true)
     (h : forTypeE opts fuel T st = .ok (some id, st')) (j : Json) (hp : PlainInts j = true)
@@ -364,6 +366,34 @@ theorem not_decodable_rejectedE_partial (opts : IOpts) (fuel : Nat) (T : GoTypeE
     Spec.valid (specEnvNoRefs st' re) fuel' id j ≠ some true := by
   intro hv
   rw [infer_tightE_partial opts fuel T st id st' re hno hdom h j hp fuel' hv] at hnd
+  cases hnd
+
+open EncJsonEmb in
+/-- **main, with embedded fields and declared types (partial)**: as `infer_tightE_partial`, with declared types in
+    NON-embedded positions anywhere in `T` (`InDomainEN`: the type with these replaced by their underlying types is in
+    `InDomainE`; `NamedOkE opts [] T`: none has an entry in the type table, no name twice along a path; see
+    `C04.infer_soundE_named_partial`); the strict decoder treats a declared type like its underlying type.
+    Partial in the same sense as `infer_tightE_partial`. -/
+theorem infer_tightE_named_partial (opts : IOpts) (fuel : Nat) (T : GoTypeE) (st : Store) (id : NodeId) (st' : Store)
+    (re : String → String → Bool) (hno : EmbNotInTable opts T) (hdom : InDomainEN T = true)
+    (hok : NamedOkE opts [] T = true)
+    (h : forTypeE opts fuel T st = .ok (some id, st')) (j : Json) (hp : PlainInts j = true)
+    (fuel' : Nat) (hv : Spec.valid (specEnvNoRefs st' re) fuel' id j = some true) :
+    decodableE T j = true := by
+  rw [forTypeE_erase opts fuel T st hok] at h
+  rw [← decodableE_erase]
+  exact infer_tightE_partial opts fuel (eraseE T) st id st' re (embNotInTable_erase opts T hno) hdom h j hp fuel' hv
+
+open EncJsonEmb in
+/-- contrapositive: what does not decode is not accepted (same domain, partial in the same sense) -/
+theorem not_decodable_rejectedE_named_partial (opts : IOpts) (fuel : Nat) (T : GoTypeE) (st : Store) (id : NodeId)
+    (st' : Store) (re : String → String → Bool) (hno : EmbNotInTable opts T) (hdom : InDomainEN T = true)
+    (hok : NamedOkE opts [] T = true)
+    (h : forTypeE opts fuel T st = .ok (some id, st')) (j : Json) (hp : PlainInts j = true)
+    (hnd : decodableE T j = false) (fuel' : Nat) :
+    Spec.valid (specEnvNoRefs st' re) fuel' id j ≠ some true := by
+  intro hv
+  rw [infer_tightE_named_partial opts fuel T st id st' re hno hdom hok h j hp fuel' hv] at hnd
   cases hnd
 
 open EncJsonEmb in
@@ -502,5 +532,17 @@ example : ∃ id st', forTypeE {} 3 (C04.embedValT tI tX tY tA) #[] = .ok (some 
     fun fuel' => (embedVal_missing_promoted_rejected tI tX tY tA hI hX hY hA id st' h fuel').1⟩
 
 end WitnessesE
+
+/-- `infer_tightE_named_partial` applied to `C04.embedNamedT` (`struct{ Inner; A Celsius }`, `Inner{ X Count; Y string }`):
+    the document `{"x":1,"a":20}`, accepted by the schema (`C04.infer_soundE_named_partial`), decodes -/
+example (tI tX tY tA : String) (hI : tagLookup "json" tI = none)
+    (hX : fieldJSONInfo "X" tX = { name := "x" }) (hY : fieldJSONInfo "Y" tY = { name := "y", omitempty := true })
+    (hA : fieldJSONInfo "A" tA = { name := "a" }) (id : NodeId) (st' : Store)
+    (h : forTypeE {} 4 (C04.embedNamedT tI tX tY tA) #[] = .ok (some id, st'))
+    (hv : Spec.valid (specEnvNoRefs st') 5 id (.obj [("x", .num 1), ("a", .num 20)]) = some true) :
+    EncJsonEmb.decodableE (C04.embedNamedT tI tX tY tA) (.obj [("x", .num 1), ("a", .num 20)]) = true :=
+  infer_tightE_named_partial {} 4 _ #[] id st' (fun _ _ => false)
+    ((Go.embNotInTable_of_empty (opts := {}) (fun _ => rfl) _).1 _ (Nat.le_refl _))
+    (C04.embedNamed_inDomain tI tX tY tA hI hX hY hA) (C04.embedNamed_namedOk tI tX tY tA) h _ (by decide) 5 hv
 
 end JSV.C09
